@@ -42,6 +42,21 @@ impl Optimizer {
             extra_rules.append(&mut rules::range::filter_scan_rule());
         }
 
+        // verification hook: run the optimiser without some of its rules (attribution of a
+        // difference to the rules of a known finding)
+        #[cfg(feature = "verif")]
+        {
+            let disabled = verif_disabled_rules();
+            if !disabled.is_empty() {
+                let keep = |r: &&Rewrite| !disabled.iter().any(|d| d == r.name.as_str());
+                self.optimize_stage(&mut expr, &mut cost, STAGE1_RULES.iter().filter(keep), 2, 6);
+                let rules = STAGE2_RULES.iter().chain(&extra_rules).filter(keep);
+                self.optimize_stage(&mut expr, &mut cost, rules, 4, 6);
+                self.optimize_stage(&mut expr, &mut cost, STAGE3_RULES.iter().filter(keep), 3, 8);
+                return expr;
+            }
+        }
+
         // 1. pushdown apply
         self.optimize_stage(&mut expr, &mut cost, STAGE1_RULES.iter(), 2, 6);
         // 2. pushdown predicate and projection
@@ -145,6 +160,19 @@ static STAGE3_RULES: LazyLock<Vec<Rewrite>> = LazyLock::new(|| {
     rules.append(&mut rules::order::order_rules());
     rules
 });
+
+#[cfg(feature = "verif")]
+static VERIF_DISABLED_RULES: std::sync::Mutex<Vec<String>> = std::sync::Mutex::new(Vec::new());
+
+/// Verification hook: names of the rewrite rules the optimiser leaves out (empty = none).
+#[cfg(feature = "verif")]
+pub fn verif_set_disabled_rules(names: Vec<String>) {
+    *VERIF_DISABLED_RULES.lock().unwrap() = names;
+}
+#[cfg(feature = "verif")]
+fn verif_disabled_rules() -> Vec<String> {
+    VERIF_DISABLED_RULES.lock().unwrap().clone()
+}
 
 /// Verification hook: the rewrite rules the optimiser runs, per stage, as the compiled rule
 /// objects describe themselves: (stage, name, left-hand pattern, right-hand pattern if it is one).
